@@ -159,25 +159,25 @@ P = {
 
 # sentences added after seeding round six and the resolver repairs (kept apart from the table above)
 MORE = {
- 'C01': ' An existing single section that is kept is not handed to the defaults builder again (R1.11, found and fixed 0495e69). A function call receives exactly the arguments written between its parentheses (R1.14 = C14 R14.4). The end of an included file or of a default-value text leaves the include depth right (R1.15 = C07 R7.6).',
- 'C02': ' The parser name lookup never goes on from a path step that did not resolve (R2.13 = C11 R11.7). The scanner the project generates is 8-bit (R2.14 = C03 R3.8); no pointer into a reallocatable option table is kept in a global or a structure member (R2.15 = C07 R7.11); the terminator rule R2.2 needs no automaton and also reports a scanner that cannot grow its buffer (REJECT). Every scan begins in the initial start condition (R2.16 = C08 R8.1); file-name buffers are sized and terminated inside their bounds (R2.17 = C17 R17.4, R17.5, R17.7).',
+ 'C01': ' An existing single section that is kept is not handed to the defaults builder again (R1.11, found and fixed 0495e69). A function call receives exactly the arguments written between its parentheses (R1.14 = C14 R14.4). The end of an included file or of a default-value text leaves the include depth right (R1.15 = C07 R7.6). A free-form key is stored inside the table of its section (R1.16 = C02 R2.11).',
+ 'C02': ' The parser name lookup never goes on from a path step that did not resolve (R2.13 = C11 R11.7). The scanner the project generates is 8-bit (R2.14 = C03 R3.8); no pointer into a reallocatable option table is kept in a global or a structure member (R2.15 = C07 R7.11); the terminator rule R2.2 needs no automaton and also reports a scanner that cannot grow its buffer (REJECT). Every scan begins in the initial start condition (R2.16 = C08 R8.1); file-name buffers are sized and terminated inside their bounds (R2.17 = C17 R17.4, R17.5, R17.7). Writes into local byte arrays of fixed size lie inside them, a length \'size - used\' needs \'used\' bounded (R2.19); a move measured with strlen() ends at the terminator (R2.20); every scanner buffer has a positive size (R2.18 = C13 R13.16).',
  'C03': ' A copy loop over matched text emits exactly as many bytes as the match is long (R3.7). The table the project\'s own scanner indexes with an input byte has 256 entries (R3.8).',
- 'C04': ' After a radix prefix the verdict about the text is the conversion own one: nothing refuses what strtol accepts (R4.12). The conversion is strtol()/strtod() itself, not a wider, narrower or unchecked relative (R4.13).',
- 'C05': ' A comment token only replaces the pending annotation (R5.12 = C15 R15.1). A raw %s between single quotes needs proof on that path that the value holds none of the bytes the reader decodes there (R5.2). A section stored again gets its defaults like the first (R5.13 = C01 R1.11); the slot accessor and the indexed setters refuse before they touch the option (R5.14 = C10 R10.1).',
- 'C06': ' cfg_error() delivers every message on each of its paths (R6.6). The buffer entry point hands its argument to the scanner unmoved and nothing reads from a stream ahead of the scanner (R6.7). A not-found result of the lookup that is the NULL of the leaf comparison handed on has been reported too (R6.1; found: a key missing from a free-form section reached by path is rejected in silence - open known finding).',
+ 'C04': ' After a radix prefix the verdict about the text is the conversion own one: nothing refuses what strtol accepts (R4.12). The conversion is strtol()/strtod() itself, not a wider, narrower or unchecked relative (R4.13). strtoll/strtoq/strtoimax are analysed as strtol on this LP64 target; the by-name bulk setter hands on the whole vector (R4.10).',
+ 'C05': ' A comment token only replaces the pending annotation (R5.12 = C15 R15.1). A raw %s between single quotes needs proof on that path that the value holds none of the bytes the reader decodes there (R5.2). A section stored again gets its defaults like the first (R5.13 = C01 R1.11); the slot accessor and the indexed setters refuse before they touch the option (R5.14 = C10 R10.1). A scalar that has a value is never written as a comment line (R5.15 = C19 R19.5).',
+ 'C06': ' cfg_error() delivers every message on each of its paths (R6.6). The buffer entry point hands its argument to the scanner unmoved and nothing reads from a stream ahead of the scanner (R6.7). A not-found result of the lookup that is the NULL of the leaf comparison handed on has been reported too (R6.1; found: a key missing from a free-form section reached by path is rejected in silence - open known finding). An include nested too deeply is refused before anything is pushed (R6.8 = C13 R13.2).',
  'C07': ' No function frees one of its own string parameters (R7.10); every exit of the end-of-file action leaves the include stack pointer at its entry value unless a level was closed (R7.6). No pointer derived from cfg->opts is stored into a global or a structure member that outlives the call (R7.11). Per include level the unwinder pops, the saved file name is released or handed to the context (R7.6); in the parser nothing is read through the slot cfg_setopt() returned after a call that can release the option\'s values (R7.2).',
- 'C08': ' Line counting and the file-name hand-over start afresh with every parse (R8.11 = C06 R6.5). Hand-written code begins a source by pushing it on the source stack, never by replacing the current one (R8.12); the file name found in the context on entry is diagnostic text only (R8.13).',
- 'C09': ' The width fetched per variadic list element is the promoted width of the documented argument type (R9.14). A scalar setter returns the success constant only after the storing routine (R9.15). A value is appended under CFGF_RESET only after the defaults were dropped and the mark cleared (R9.16 = C01 R1.3); the removal API leaves no released pointer in the option (R9.17 = C07 R7.2).',
- 'C10': ' Unconvertible text is refused before the store (R10.10 = the conversion discipline of C04). Every member of the option record that the storing routines write counts as state a revert must restore (members added later included).',
- 'C11': ' Once the closing quote of a well-formed quoted qualifier was seen the title parser returns a title (R11.12); the name looked up is the whole step (R11.13); an index qualifier has at least one digit and reaches the 32-bit accessor only below a bound (R11.5); the byte behind a qualifier was shown to be the separator or the end (R11.14); a path ending in a separator does not resolve (R11.15) - the last three found four defects, fixed 91d5190. A case-folding comparison of a name or title lies behind a test of the CFGF_NOCASE bit itself (R11.16). A title qualifier is compared under the same case rule as every other title comparison (R11.17 = C09 R9.3).',
- 'C12': ' The name state equals the reference automaton under every flag combination (R12.11 = C01 R1.1). With the flag set the name lookup reports nothing (R12.12); the skipper simulation carries the NULL current option, so ordinary states entered while skipping are judged as skipper states (R12.5). No scanner or parser state outlives a refused text (R12.13 = C08 R8.0).',
- 'C13': ' Every entry into a section body hands over file name, line and error function (R13.12); the unwinder is given the level the parse started at (R13.6). No include budget survives a parse: every mutable global falls under a reset discipline (R13.13 = C08 R8.0). After a parse refused inside an included file nothing is released twice (R13.14 = C07 R7.2); a token read after the end of an included file has a value (R13.15 = C02 R2.4).',
+ 'C08': ' Line counting and the file-name hand-over start afresh with every parse (R8.11 = C06 R6.5). Hand-written code begins a source by pushing it on the source stack, never by replacing the current one (R8.12); the file name found in the context on entry is diagnostic text only (R8.13). cfg_free() recognises the root context by its whole name (R8.14 = C09 R9.18).',
+ 'C09': ' The width fetched per variadic list element is the promoted width of the documented argument type (R9.14). A scalar setter returns the success constant only after the storing routine (R9.15). A value is appended under CFGF_RESET only after the defaults were dropped and the mark cleared (R9.16 = C01 R1.3); the removal API leaves no released pointer in the option (R9.17 = C07 R7.2). Titles and names are compared as whole strings, no prefix tests (R9.18); by-name calls take the instance number as a bounded whole numeral (R9.12 with C11 R11.5).',
+ 'C10': ' Unconvertible text is refused before the store (R10.10 = the conversion discipline of C04). Every member of the option record that the storing routines write counts as state a revert must restore (members added later included). A title that is only the beginning of an existing one is refused (R10.11 = C09 R9.18).',
+ 'C11': ' Once the closing quote of a well-formed quoted qualifier was seen the title parser returns a title (R11.12); the name looked up is the whole step (R11.13); an index qualifier has at least one digit and reaches the 32-bit accessor only below a bound (R11.5); the byte behind a qualifier was shown to be the separator or the end (R11.14); a path ending in a separator does not resolve (R11.15) - the last three found four defects, fixed 91d5190. A case-folding comparison of a name or title lies behind a test of the CFGF_NOCASE bit itself (R11.16). A title qualifier is compared under the same case rule as every other title comparison (R11.17 = C09 R9.3). A qualifier picks an instance only of a CFGF_MULTI section (R11.18); the relatives of strtol are held to the demands of R11.5.',
+ 'C12': ' The name state equals the reference automaton under every flag combination (R12.11 = C01 R1.1). With the flag set the name lookup reports nothing (R12.12); the skipper simulation carries the NULL current option, so ordinary states entered while skipping are judged as skipper states (R12.5). No scanner or parser state outlives a refused text (R12.13 = C08 R8.0). The rejection of an undeclared item inside a section reaches the error function (R12.14 = C06 R6.5); what the parser keeps about a skipped item in a local array stays inside it (R12.15 = C02 R2.19).',
+ 'C13': ' Every entry into a section body hands over file name, line and error function (R13.12); the unwinder is given the level the parse started at (R13.6). No include budget survives a parse: every mutable global falls under a reset discipline (R13.13 = C08 R8.0). After a parse refused inside an included file nothing is released twice (R13.14 = C07 R7.2); a token read after the end of an included file has a value (R13.15 = C02 R2.4). Every scanner buffer is created with a positive size, the empty include file included (R13.16).',
  'C14': ' No decision reads errno after a user callback ran on the path without a store in between (R14.10). Registration by path compares whole names, case-folding only under CFGF_NOCASE (R14.11 = C11 R11.1, R11.16). The validation callback of a section runs only after the result of parsing its body was looked at (R14.3).',
- 'C15': ' The comment getter finds its option through the one resolver (R15.8 = C11 R11.1). A comment leaves no scanner state behind (R15.9 = C08 R8.0). Dropping old values under CFGF_RESET keeps the annotation (R15.10 = C10 R10.4); every function that fetches tokens passes over a comment token (R15.11).',
+ 'C15': ' The comment getter finds its option through the one resolver (R15.8 = C11 R11.1). A comment leaves no scanner state behind (R15.9 = C08 R8.0). Dropping old values under CFGF_RESET keeps the annotation (R15.10 = C10 R10.4); every function that fetches tokens passes over a comment token (R15.11). The comment token carries the reference text (R15.12 = C03 R3.5).',
  'C16': ' A section is handed to the defaults builder exactly on the paths that created it (R16.10); every scan begins in the initial start condition (R16.11 = C08 R8.1). Nothing but the context holds a pointer into its private option table (R16.12 = C07 R7.11). Removing or replacing an instance never releases the search path the instances share (R16.13 = C07 R7.3); the print filter in force for an instance is its own or the inherited one (R16.14 = C19 R19.2).',
  'C17': ' Every registered directory is tried until one yields a regular file: the search leaves early only with a result (R17.12). Existing search-path entries are never relinked (R17.2); name resolution keeps no memory (R17.14 = C08 R8.0). Replacing or removing a section never releases the directory list (R17.15 = C07 R7.3); include() judges the resolved file (R17.16 = C13 R13.5).',
- 'C18': ' On a failing exit of a fallible appender the element count has its entry value (R18.10). The refusal analysis also covers the allocation-failure paths of the removal API (R18.7).',
- 'C19': ' The layout of an option is chosen by type from the set the reader dispatch knows (R19.5); the filter setter stores its argument whenever the context is non-NULL (R19.6). The print-callback setter stores its argument for every option type the printer writes through a callback (R19.10).',
+ 'C18': ' On a failing exit of a fallible appender the element count has its entry value (R18.10). The refusal analysis also covers the allocation-failure paths of the removal API (R18.7). A half-built list node is released alone, never with the caller\'s list linked behind it (R18.11).',
+ 'C19': ' The layout of an option is chosen by type from the set the reader dispatch knows (R19.5); the filter setter stores its argument whenever the context is non-NULL (R19.6). The print-callback setter stores its argument for every option type the printer writes through a callback (R19.10). A print callback set in the schema reaches every copy (R19.11 = C14 R14.8, member pf).',
 }
 
 
